@@ -414,6 +414,42 @@ func (x *c03) dischargeBounds(f *ssa.Function, ins []ssa.Instruction, s residueS
 					return why, "", shape
 				}
 			}
+			// Gsym: the slice is a window of the decoder's input whose width is known for the V-flag alternative(s)
+			// this point is reached under (data[8:hdr] with hdr ∈ {8, 12} on the hdr > 8 edge)
+			if _, isSl := sarg.(*ssa.Slice); isSl {
+				if top, data, wire := x.c.avpDecoder(); top != nil {
+					e := x.c.newAVPSym(top, data, wire)
+					ws := e.slices(sarg, 0)
+					here := e.tagOf(call, 0)
+					okAll, cnt := true, 0
+					for _, w := range ws {
+						t, compatible := tagJoin(w.tag, here)
+						if !compatible {
+							continue
+						}
+						cnt++
+						d := w.hi.sub(w.lo)
+						if d.l == 0 && d.n == 0 {
+							if d.k < need {
+								okAll = false
+							}
+							continue
+						}
+						tags := []string{t}
+						if t == "" {
+							tags = []string{"V", "noV"}
+						}
+						for _, tg := range tags {
+							if ok, _ := e.holdsAt(call, d.sub(lin{k: need}), tg, 0); !ok {
+								okAll = false
+							}
+						}
+					}
+					if okAll && cnt > 0 {
+						return fmt.Sprintf("Gsym: binary.%s reads a window of the decoder's input that is at least %d bytes wide for the V-flag alternative this point is reached under", o.Name(), need), "", shape
+					}
+				}
+			}
 			return "", fmt.Sprintf("binary.%s reads %d bytes of a slice without a dominating length guard", o.Name(), need), shape
 		}
 	}
@@ -1618,7 +1654,14 @@ func (x *c03) typeGuardOn(gs []flow.Guard, root ssa.Value, fields []string, want
 // param.fields.
 func (x *c03) boolImpliesTypeGuard(h *ssa.Function, idx int, param *ssa.Parameter, fields []string, want types.Type, implByK map[string][]types.Type) bool {
 	okAll, n := true, 0
-	for _, rv := range flow.ReturnValues(h, idx) {
+	var rets []*ssa.Return
+	flow.Instrs(h, func(in ssa.Instruction) {
+		if rt, ok := in.(*ssa.Return); ok && rt.Block() != h.Recover && len(rt.Results) > idx {
+			rets = append(rets, rt)
+		}
+	})
+	for _, rt := range rets {
+		rv := rt.Results[idx]
 		n++
 		var visit func(v ssa.Value, at ssa.Instruction, d int) bool
 		visit = func(v ssa.Value, at ssa.Instruction, d int) bool {
@@ -1649,7 +1692,8 @@ func (x *c03) boolImpliesTypeGuard(h *ssa.Function, idx int, param *ssa.Paramete
 			}
 			return false
 		}
-		if !visit(rv, nil, 0) {
+		// a constant returned as it is: the return itself stands on the guarded (or unguarded) edge
+		if !visit(rv, rt, 0) {
 			okAll = false
 		}
 	}
@@ -2083,6 +2127,11 @@ func (x *c03) recursion() {
 // returns an error, (2) every call that stays in the cycle passes a value derived from d increased or equal
 // along the cycle, with at least one +const step.
 func (x *c03) depthBounded(comp []*ssa.Function, set map[*ssa.Function]bool) (string, string) {
+	// the depth may travel inside a small struct handed down by value (a decode scope): same argument, with the
+	// struct's one int field in the place of the parameter
+	if how, why, applies := x.depthBoundedInStruct(comp, set); applies {
+		return how, why
+	}
 	// find depth parameters: per function, an int parameter passed along to cycle calls
 	depthParam := map[*ssa.Function]*ssa.Parameter{}
 	for _, f := range comp {
@@ -2157,6 +2206,169 @@ func (x *c03) depthBounded(comp []*ssa.Function, set map[*ssa.Function]bool) (st
 		return "", "the depth value is never increased around the cycle"
 	}
 	return "depth parameter threaded through the cycle, increased at least once per round; " + guarded, ""
+}
+
+// depthBoundedInStruct: every function of the cycle takes, by value, a parameter of one and the same struct type
+// with exactly one int field (the depth). One function compares that field of its parameter with a constant and
+// returns an error beyond it, before any cycle call; every cycle call passes the parameter itself or the result
+// of a value-receiver method that returns its receiver with the field increased by a positive constant (and at
+// least one call does the latter). applies is false when the cycle does not have this shape at all.
+func (x *c03) depthBoundedInStruct(comp []*ssa.Function, set map[*ssa.Function]bool) (how, why string, applies bool) {
+	carrier := map[*ssa.Function]*ssa.Parameter{}
+	var T *types.Named
+	fld := -1
+	for _, f := range comp {
+		for _, p := range f.Params {
+			n, ok := p.Type().(*types.Named)
+			if !ok {
+				continue
+			}
+			st, ok := n.Underlying().(*types.Struct)
+			if !ok {
+				continue
+			}
+			ints, idx := 0, -1
+			for i := 0; i < st.NumFields(); i++ {
+				if b, ok := st.Field(i).Type().Underlying().(*types.Basic); ok && b.Kind() == types.Int {
+					ints++
+					idx = i
+				}
+			}
+			if ints == 1 && (T == nil || types.Identical(T, n)) {
+				T, fld = n, idx
+				carrier[f] = p
+			}
+		}
+	}
+	if T == nil || len(carrier) != len(comp) {
+		return "", "", false
+	}
+	// does v read field fld of parameter p (directly, or through the cell the parameter was spilled to)?
+	readsDepth := func(v ssa.Value, p *ssa.Parameter) bool {
+		switch y := v.(type) {
+		case *ssa.Field:
+			return y.Field == fld && (y.X == ssa.Value(p) || spilledParam(y.X) == p)
+		case *ssa.UnOp:
+			if fa, ok := y.X.(*ssa.FieldAddr); ok && y.Op == token.MUL && fa.Field == fld {
+				if al, ok := fa.X.(*ssa.Alloc); ok {
+					for _, ref := range flow.Referrers(al) {
+						if st, ok := ref.(*ssa.Store); ok && st.Addr == ssa.Value(al) && st.Val == ssa.Value(p) {
+							return true
+						}
+					}
+				}
+			}
+		}
+		return false
+	}
+	guarded := ""
+	for _, f := range comp {
+		p := carrier[f]
+		for _, b := range f.Blocks {
+			ifi, ok := b.Instrs[len(b.Instrs)-1].(*ssa.If)
+			if !ok {
+				continue
+			}
+			rl, ok := condRel(ifi.Cond, true)
+			if !ok || !readsDepth(rl.a, p) {
+				continue
+			}
+			if k, isK := flow.ConstInt(rl.b); isK && (rl.op == token.GTR || rl.op == token.GEQ) && returnsNonNilError(b.Succs[0]) {
+				okDom := true
+				for _, ci := range flow.CallInstrs(f) {
+					if g := flow.StaticCallee(ci); g != nil && set[g] && !flow.Dominates(ifi, ci) {
+						okDom = false
+					}
+				}
+				if okDom {
+					guarded = fmt.Sprintf("%s rejects %s.%s %s %d with an error before recursing", f.Name(), T.Obj().Name(), T.Underlying().(*types.Struct).Field(fld).Name(), rl.op, k)
+				}
+			}
+		}
+	}
+	if guarded == "" {
+		return "", "no function of the cycle compares the depth field of the scope it was handed with a constant and returns an error", true
+	}
+	// stepper: value-receiver method returning its receiver with the field + k
+	steps := func(h *ssa.Function) bool {
+		if h == nil || h.Blocks == nil || len(h.Params) != 1 || !types.Identical(h.Params[0].Type(), T) || len(flow.Loops(h)) > 0 {
+			return false
+		}
+		var cell *ssa.Alloc
+		for _, b := range h.Blocks {
+			for _, in := range b.Instrs {
+				if st, ok := in.(*ssa.Store); ok && st.Val == ssa.Value(h.Params[0]) {
+					cell, _ = st.Addr.(*ssa.Alloc)
+				}
+			}
+		}
+		if cell == nil {
+			return false
+		}
+		inc, other := false, false
+		flow.Instrs(h, func(in ssa.Instruction) {
+			st, ok := in.(*ssa.Store)
+			if !ok {
+				return
+			}
+			fa, ok := st.Addr.(*ssa.FieldAddr)
+			if !ok || fa.X != ssa.Value(cell) {
+				return
+			}
+			if fa.Field != fld {
+				return
+			}
+			bo, ok := st.Val.(*ssa.BinOp)
+			if ok && bo.Op == token.ADD {
+				if k, isK := flow.ConstInt(bo.Y); isK && k > 0 {
+					if ld, isLd := bo.X.(*ssa.UnOp); isLd && ld.Op == token.MUL {
+						if fa2, ok := ld.X.(*ssa.FieldAddr); ok && fa2.X == ssa.Value(cell) && fa2.Field == fld {
+							inc = true
+							return
+						}
+					}
+				}
+			}
+			other = true
+		})
+		if !inc || other {
+			return false
+		}
+		okRet := true
+		flow.Instrs(h, func(in ssa.Instruction) {
+			if ret, isRet := in.(*ssa.Return); isRet {
+				ld, ok := ret.Results[0].(*ssa.UnOp)
+				if len(ret.Results) != 1 || !ok || ld.Op != token.MUL || ld.X != ssa.Value(cell) {
+					okRet = false
+				}
+			}
+		})
+		return okRet
+	}
+	inc := false
+	for _, f := range comp {
+		p := carrier[f]
+		for _, ci := range flow.CallInstrs(f) {
+			g := flow.StaticCallee(ci)
+			if g == nil || !set[g] {
+				continue
+			}
+			gp := carrier[g]
+			a := ci.Common().Args[paramIndex(g, gp)]
+			if a == ssa.Value(p) || spilledParam(a) == p {
+				continue
+			}
+			if hc, ok := a.(*ssa.Call); ok && len(hc.Call.Args) == 1 && (hc.Call.Args[0] == ssa.Value(p) || spilledParam(hc.Call.Args[0]) == p) && steps(flow.StaticCallee(hc)) {
+				inc = true
+				continue
+			}
+			return "", fmt.Sprintf("%s calls %s with a scope that is neither its own nor its own one level deeper", f.Name(), g.Name()), true
+		}
+	}
+	if !inc {
+		return "", "the depth carried in the scope is never increased around the cycle", true
+	}
+	return "depth carried by value in " + T.Obj().Name() + " around the cycle, increased at least once per round; " + guarded, "", true
 }
 
 // structural: every call that stays in the cycle either descends (into the AVP children of the
